@@ -162,7 +162,7 @@ def r4_bootstraps(ck, repo, nf):
     q = PE + "bootstrap"
     f = repo.func(q)
     g = nf.return_poly(q, _env(f)).canon()
-    w = "choice(key, n_samples, replace=1, shape=(n_ensemble, n_samples*train_size))"
+    w = nf.poly(parse_expr("jax.random.choice(key, n_samples, shape=(n_ensemble, int(train_size * n_samples)), replace=True)"), Scope(None, f._module, _env(f), q), None).canon()
     ck.ob("R4-bootstraps", q, "index-matrix", g == w, g, "" if g == w else f"must be {w}: one row of indices (with replacement) per member", loc(f._module, f))
     q = PE + "train_ensemble"
     f = repo.func(q)
